@@ -471,6 +471,55 @@ class Interp:
                     if isinstance(v, FloatV):
                         v = FloatV(("name", f"{rel}:{tgt.id}", v.expr))
                     env[tgt.id] = v
+        # anything else that happens at module level after a name was bound (NAME |= .., NAME.append(..), loops, ifs, del ...):
+        # follow augmented assignments of integers, forget the names touched by statements that are not followed
+        # (second pass in source order: `env` above holds the value of the LAST plain assignment of each name)
+        seen_assign: Dict[str, int] = {}
+        for n in tree.body:
+            if isinstance(n, (ast.Assign, ast.AnnAssign)):
+                tg = n.targets[0] if isinstance(n, ast.Assign) else n.target
+                if isinstance(tg, ast.Name):
+                    seen_assign[tg.id] = seen_assign.get(tg.id, 0) + 1
+        later_plain = dict(seen_assign)
+        for n in tree.body:
+            if isinstance(n, (ast.Assign, ast.AnnAssign)):
+                tg = n.targets[0] if isinstance(n, ast.Assign) else n.target
+                if isinstance(tg, ast.Name):
+                    later_plain[tg.id] -= 1
+                elif isinstance(tg, (ast.Subscript, ast.Attribute)) or isinstance(tg, (ast.Tuple, ast.List)):
+                    for x in ast.walk(tg):
+                        if isinstance(x, ast.Name) and x.id in env and not isinstance(env[x.id], (FuncRef, ClassV)):
+                            env[x.id] = Unknown(f"module-level value {x.id} modified by `{core.src(n)[:40]}`")
+                continue
+            if isinstance(n, (ast.FunctionDef, ast.ClassDef, ast.Import, ast.ImportFrom, ast.Pass, ast.Global)):
+                continue
+            if isinstance(n, ast.Expr) and isinstance(n.value, ast.Constant):
+                continue
+            if isinstance(n, ast.AugAssign) and isinstance(n.target, ast.Name) and n.target.id in env and later_plain.get(n.target.id, 0) == 0:
+                cur = env[n.target.id]
+                st = State()
+                st.env = dict(env)
+                try:
+                    rv = self.eval(n.value, st, rel)
+                    env[n.target.id] = self.binop(n.op, cur, rv, st, n) if isinstance(cur, Lin) and isinstance(rv, Lin) else \
+                        Unknown(f"module-level value {n.target.id} updated by `{core.src(n)[:40]}`")
+                except (_Raise, _Fork, Budget, _Unmodelled, RecursionError):
+                    env[n.target.id] = Unknown(f"module-level value {n.target.id} updated by `{core.src(n)[:40]}`")
+                continue
+            # any other statement: every module-level name it stores to, deletes, or calls a method on is no longer known
+            touched = set()
+            for x in ast.walk(n):
+                if isinstance(x, ast.Name) and isinstance(x.ctx, (ast.Store, ast.Del)):
+                    touched.add(x.id)
+                if isinstance(x, ast.Call) and isinstance(x.func, ast.Attribute) and isinstance(x.func.value, ast.Name):
+                    touched.add(x.func.value.id)
+                if isinstance(x, (ast.Subscript, ast.Attribute)) and isinstance(x.ctx, (ast.Store, ast.Del)):
+                    for y in ast.walk(x):
+                        if isinstance(y, ast.Name):
+                            touched.add(y.id)
+            for nm in touched:
+                if nm in env and not isinstance(env[nm], (FuncRef, ClassV)) and not (isinstance(env[nm], FuncRef)):
+                    env[nm] = Unknown(f"module-level value {nm} modified by a statement that is not followed (`{core.src(n)[:40]}`)")
         if rel == "a5/core/origin.py" and "origins" in env:
             env["origins"] = TableV("origins", self.origin_len)      # the face table as every other module sees it
         return env
